@@ -398,6 +398,9 @@ fn run(m: &Mon, a: &Args) -> i32 {
             ("observed", J::u(f.count)),
             ("seed", J::u(a.seed)),
             ("tier", J::s(a.tier.name())),
+            // which build of the harness + library observed it (a release-only defect does not
+            // reproduce under the chk build); ./check replay picks the binary accordingly
+            ("build", J::s(if f.desc.starts_with("[rel build]") { "rel" } else { "chk" })),
             ("replay_cmd", J::s(format!("./check {} replay {}", m.id, path))),
         ]);
         let _ = std::fs::write(&path, j.pretty());
